@@ -39,7 +39,7 @@ FnMatchAt(p, i, s, j) ==
   ELSE s[j] = p[i] /\ FnMatchAt(p, i + 1, s, j + 1)
 
 FnMatch(p, s) == FnMatchAt(p, 1, s, 1)
-LowerSeq(s) == [i \in 1..Len(s) |-> ToLower(s[i])]
+LowerSeq(s) == [i \in 1..Len(s) |-> FoldLower(s[i])]
 FnMatchCi(p, s) == FnMatch(Eager(LowerSeq(p)), Eager(LowerSeq(s)))
 HasGlobChar(p) == \E i \in 1..Len(p) : p[i] \in {cSTAR, cQM, cLB}
 
